@@ -5,13 +5,17 @@ ONLY property theorems and non-vacuity examples live here; helper lemmas are in
 
 Every theorem quantifies over EVERY schedule `σ : List Nat` (list of thread ids; a thread
 id that does not exist or a finished thread is a no-op step), every number of threads,
-every program assignment `progs` and every initial content `vals`.  The machine is the
+every program assignment `progs` (calls `Push v`, `Pop`, `Len`, `PopWait d` for `d < 0`
+— `Pop` in a `Gosched` loop — and `d = 0` — one `Pop`; positive durations are ticker-driven
+and NOT modelled) and every initial content `vals`.  The machine is the
 repaired statement order (`Order.addThenStore`, F7); the pre-repair order is refuted in
 `Golib/Findings/C11.lean`.
 -/
 import Golib.Proof.C11Facts
 import Golib.Proof.C11Inv
 import Golib.Proof.C11Lin
+import Golib.Proof.C11Hist
+import Golib.Proof.C11Prog
 
 namespace Golib.C11
 
@@ -19,8 +23,13 @@ namespace Golib.C11
 theorem c11_source_order :
     soloSrc .addThenStore (init [] [[.push 5]]) 5 = Gen.C11.pushOps.takeWhile (· ≠ .gosched) ∧
     soloSrc .addThenStore (init [9] [[.pop]]) 7 = Gen.C11.popOps ∧
-    soloSrc .addThenStore (init [9] [[.len]]) 1 = Gen.C11.lenOps :=
-  ⟨facts_push_success_path, facts_pop_success_path, facts_len⟩
+    soloSrc .addThenStore (init [9] [[.len]]) 1 = Gen.C11.lenOps ∧
+    Gen.C11.popWaitOps.takeWhile (· ≠ .ticker) =
+      [.cond "d < 0", .loop, .callPop, .ret, .gosched, .callPop, .ret, .cond "d == 0", .ret] ∧
+    soloSrc .addThenStore (init [] [[.popWait true]]) 6 =
+      Gen.C11.popOps.take 2 ++ [.gosched] ++ Gen.C11.popOps.take 2 ++ [.gosched] :=
+  ⟨facts_push_success_path, facts_pop_success_path, facts_len, facts_popwait_shape,
+    facts_popwait_model.1⟩
 
 /-- `c11_inv`: in every reachable state `head ≤ tail < |chain| ≤ tail + 2` (the tail lags
 behind the last linked node by at most one push in progress, the head never passes the
@@ -110,14 +119,46 @@ theorem c11_race_free (vals : List Int) (progs : List (List Call)) (σ : List Na
   rw [lrun_fst] at hG
   exact no_conflict hG hij hi hj ha hb
 
-/-- `c11_push_completes_partial`: in every reachable state in which all other threads are
-idle, a `Push` at its loop head returns after exactly five of its own steps.
-Full statement (DESIGN §5): additionally, under fair scheduling of the single pusher that
-is between its link CAS and its publication (`Inv.one_publisher`: there is at most one,
-and it needs two more steps), every spinning pusher leaves its `Gosched` loop.  The
-fairness clause is not proved here; the harness exercises it (the `drain` line is a
-round-robin scheduler and never times out, key `push-stuck`). -/
-theorem c11_push_completes_partial (vals : List Int) (progs : List (List Call)) (σ : List Nat)
+/-- `c11_lin_fifo`: the EMITTED sequence of linearization events `L` (read off the
+implementation state only: `push i v` at the tail publication of `Push(v)`, `pop i x` at a
+successful head CAS with `x` the value in the node that becomes the head) of every run
+ 1. is a legal run of the sequential FIFO queue from the initial content, ending in exactly
+    what the list stores (`replay`: a pop event is legal only if it removes the OLDEST
+    element and carries its value);
+ 2. conservation: initial content ++ pushed values (push-lin order) = popped values (pop-lin
+    order) ++ stored values — every pushed value is popped at most once, pops come out in
+    push-lin order, what is not popped remains, nothing is invented;
+ 3. at every point of the run the values popped so far are a prefix of the initial content
+    followed by the values whose push has linearized SO FAR — a value is popped only
+    after its push linearized. -/
+theorem c11_lin_fifo (vals : List Int) (progs : List (List Call)) (σ : List Nat) :
+    let L := lins (init vals progs) σ
+    let s := (run .addThenStore (init vals progs) σ).1
+    replay vals L = some (stored s) ∧
+    vals ++ pushedVals L = poppedVals L ++ stored s ∧
+    ∀ k, poppedVals (L.take k) <+: vals ++ pushedVals (L.take k) := by
+  have h := replay_lins vals progs σ
+  exact ⟨h, replay_conservation h, replay_popped_prefix h⟩
+
+/-- `c11_history`: per thread `j`, the lin / return events of every run are accepted by the
+protocol automaton of the thread's program `pr` (`accepts`, `autoOwn`): calls return in
+program order; a `Push(v)` has exactly one lin event, `push v`, after the thread's previous
+return and not after its own return; a `Pop`/`PopWait` returning `(x, true)` has exactly one
+lin event and it carries the SAME `x`; a call returning `(_, false)` (only `Pop` and
+`PopWait(0)` can) has none; `Len` has none.  Every lin event of thread `j` is a step thread
+`j` takes inside the call, i.e. between invocation and response: together with
+`c11_lin_fifo` this is linearizability with real-time order.  What the automaton has left
+to do is what the thread has left to do. -/
+theorem c11_history (vals : List Int) (progs : List (List Call)) (σ : List Nat) (j : Nat)
+    (pr : List Call) (hj : progs[j]? = some pr) :
+    ∃ st' th', (run .addThenStore (init vals progs) σ).1.threads[j]? = some th' ∧
+      accepts j (pr, .idle) (trace (init vals progs) σ) = some st' ∧
+      st'.1 = th'.cur.toList ++ th'.prog :=
+  accepts_trace vals progs σ j pr hj
+
+/-- `c11_push_completes_solo`: in every reachable state in which all other threads are
+idle, a `Push` at its loop head returns after exactly five of its own steps. -/
+theorem c11_push_completes_solo (vals : List Int) (progs : List (List Call)) (σ : List Nat)
     (i : Nat) (th : Thread) (v : Int) :
     let s := (run .addThenStore (init vals progs) σ).1
     s.threads[i]? = some th → th.pc = .pushLoadTail v →
@@ -125,6 +166,88 @@ theorem c11_push_completes_partial (vals : List Int) (progs : List (List Call)) 
       (run .addThenStore s [i, i, i, i, i]).2.map (·.ret) = [none, none, none, none, some .push] := by
   intro s hth hpc hidle
   exact push_completes_solo (inv_run (inv_init vals progs) σ) hth hpc hidle
+
+/-- `c11_push_completes` (fair scheduling of the publishing pusher).  In every reachable
+state `s`:
+ 1. (the bound) a pusher `j` that has linked its node but not yet published the tail
+    (`pushAdd`/`pushStore`; there is at most one: `c11_inv`) returns after `remPub ≤ 2` of its
+    OWN steps, in every continuation `σ'` whatever the other threads do;
+ 2. for a thread `i` anywhere inside `Push` and every continuation `σ₁ ++ σ₂` such that
+    every other publishing thread takes its `remPub ≤ 2` remaining steps during `σ₁`
+    (fairness: "the publishing pusher takes k more steps") and thread `i` takes 7 steps during
+    `σ₂` — the other threads being interleaved arbitrarily — thread `i`'s `Push` returns, or
+    a DIFFERENT thread linked a node (won a link CAS) during `σ₁ ++ σ₂`.
+ So a pusher is kept spinning only by a publisher that is not scheduled or by other pushes
+ getting in first; `c11_push_completes_rounds` turns this into a bound. -/
+theorem c11_push_completes (vals : List Int) (progs : List (List Call)) (σ : List Nat) :
+    let s := (run .addThenStore (init vals progs) σ).1
+    (∀ j b σ', s.threads[j]? = some b → isPushPost b.pc = true → remPub b.pc ≤ σ'.count j →
+      remPub b.pc ≤ 2 ∧ Returned j (run .addThenStore s σ').2) ∧
+    (∀ i th σ₁ σ₂, s.threads[i]? = some th → inPush th.pc = true →
+      (∀ j b, j ≠ i → s.threads[j]? = some b → remPub b.pc ≤ σ₁.count j) → 7 ≤ σ₂.count i →
+      Returned i (run .addThenStore s (σ₁ ++ σ₂)).2 ∨
+        OtherLinked i (run .addThenStore s (σ₁ ++ σ₂)).2) := by
+  intro s
+  have hI := inv_run (inv_init vals progs) σ
+  refine ⟨fun j b σ' hb hp hc => ⟨?_, publisher_returns hI hb hp σ' hc⟩,
+    fun i th σ₁ σ₂ hth hin hf ho => push_round hI hth hin σ₁ σ₂ hf ho⟩
+  cases b.pc <;> simp [remPub]
+
+/-- `c11_push_completes_rounds` (the bound).  `unlinked s` = number of `Push` calls in the
+system (running or still to be started, programs are finite) that have not linked their node.
+A fair round for thread `i` = every other thread takes two steps, then thread `i` takes seven,
+all other steps interleaved arbitrarily.  From every reachable state, for a thread `i`
+inside `Push`, any schedule consisting of more than `unlinked s` fair rounds makes that
+`Push` return: each round in which it does not return uses up one of the finitely many
+pending pushes of the others. -/
+theorem c11_push_completes_rounds (vals : List Int) (progs : List (List Call)) (σ : List Nat)
+    (i : Nat) (th : Thread) (rs : List (List Nat × List Nat)) :
+    let s := (run .addThenStore (init vals progs) σ).1
+    s.threads[i]? = some th → inPush th.pc = true → (∀ r ∈ rs, FairRound i r) →
+      unlinked s < rs.length → Returned i (run .addThenStore s (flatRounds rs)).2 := by
+  intro s hth hin hf hl
+  exact push_rounds (inv_run (inv_init vals progs) σ) hth hin rs hf hl
+
+/-- `c11_push_completes_quiet`: "Push completes once the other in-flight pushes are allowed
+to finish".  If no other thread has a `Push` that still has to link (they may be publishing,
+popping, spinning in `PopWait`, reading `Len`, idle), then after the publisher's `≤ 2` steps
+(in `σ₁`) seven own steps (in `σ₂`) make thread `i`'s `Push` return. -/
+theorem c11_push_completes_quiet (vals : List Int) (progs : List (List Call)) (σ : List Nat)
+    (i : Nat) (th : Thread) (σ₁ σ₂ : List Nat) :
+    let s := (run .addThenStore (init vals progs) σ).1
+    s.threads[i]? = some th → inPush th.pc = true →
+      (∀ j b, j ≠ i → s.threads[j]? = some b → NoPush b) →
+      (∀ j b, j ≠ i → s.threads[j]? = some b → remPub b.pc ≤ σ₁.count j) → 7 ≤ σ₂.count i →
+      Returned i (run .addThenStore s (σ₁ ++ σ₂)).2 := by
+  intro s hth hin hq hf ho
+  rcases push_round (inv_run (inv_init vals progs) σ) hth hin σ₁ σ₂ hf ho with h | h
+  · exact h
+  · exact absurd h (no_link_of_noPush hq _)
+
+/-- Non-vacuity of the progress theorems: a reachable state in which thread 0 has linked
+its node but not published it (`pushAdd`, two steps to go), thread 1 is inside the push loop
+and has just seen the unpublished node (it is about to `Gosched`), thread 2 is a blocking
+`PopWait`; one push (thread 1's) is unlinked, thread 0 is `NoPush`.  Thread 1 is NOT helped
+by its own steps alone: ten solo steps leave it spinning; the fair schedule
+`[0,0] ++ [1×7]` makes both pushes return. -/
+example :
+    let s := (run .addThenStore (init [] [[.push 5], [.push 6], [.popWait true]]) [0, 0, 0, 1, 1, 2]).1
+    (s.threads.map (·.pc)) = [.pushAdd 5 1, .pushYield 6, .popLoadTail 0] ∧
+    unlinked s = 1 ∧ pend { pc := .pushAdd 5 1, prog := [], cur := some (.push 5) } = 0 ∧
+    ((run .addThenStore s (List.replicate 10 1)).2.filter (·.ret.isSome)) = [] ∧
+    ((run .addThenStore s ([0, 0] ++ List.replicate 7 1)).2.filter (·.ret.isSome)).map (·.tid) = [0, 1] := by
+  decide
+
+/-- Non-vacuity of `c11_lin_fifo` / `c11_history`: the emitted events of a run with a push,
+a blocking `PopWait` that first finds the list empty, and a `Pop` that loses. -/
+example :
+    trace (init [4] [[.push 7], [.popWait true], [.pop]])
+        [1, 1, 2, 2, 2, 1, 1, 2, 1, 1, 1, 0, 0, 0, 0, 0, 1, 1, 1, 1, 1, 1, 1, 1, 1] =
+      [.lin (.pop 1 4), .ret 2 (.pop 0 false), .ret 1 (.pop 4 true), .lin (.push 0 7), .ret 0 .push] ∧
+    lins (init [4] [[.push 7], [.popWait true], [.pop]])
+        [1, 1, 2, 2, 2, 1, 1, 2, 1, 1, 1, 0, 0, 0, 0, 0, 1, 1, 1, 1, 1, 1, 1, 1, 1] =
+      [.pop 1 4, .push 0 7] := by
+  decide
 
 /-- Non-vacuity of the linearizability clauses: a reachable instrumented state with a
 non-empty abstract queue, a pop past its linearization point (pending value 4) and a
